@@ -253,16 +253,22 @@ mixed2('C12', [('contracts.cfg', 'CFG.is_empty'), ('contracts.cfg', 'CFG.get_rea
       'contract-based deductive verification (pyvc + z3, Mathlib for the counting facts) for reachability, generating / nullable symbols and emptiness; bounded run-time contract checking for finiteness (networkx) and word enumeration', CFG_TRUST[:2] + ['get_generating_symbols is proved in contracts/cfg_gen.py (worklist with counters, against the least-set spec GNS); assumed there: the contract of the table builder CFG._set_impacts_and_remaining_lists (one counter cell per non-empty production initialised with the body length, one _impacts entry per body position), the four List.countP / List.count facts proved in bridge/count.lean, the induction principle of the least set (one instance), and that the memo fields hold None or the computed set'])
 
 CONV_JOBS = [('contracts.cfg_conv', 'CFGVariableConverter.' + k) for k in ('_set_index_state', '_get_state_index', '_set_index_symbol', '_get_symbol_index', '_get_indexes', '_create_new_variable', 'to_cfg_combined_variable', 'set_valid', 'is_valid_and_get')] + [('contracts.cfg_conv_init', 'CFGVariableConverter.__init__')]
+PDA_REP_JOBS = [('contracts.pda_tf', 'PdaTFc.' + k) for k in ('add_transition', '__call__', 'copy')] \
+    + [('contracts.pda_creator', f'fn._get_object_from_{h}[{k}]') for k in ('State', 'Symbol', 'StackSymbol') for h in ('known', 'raw')] \
+    + [('contracts.pda_creator', f'PDAObjectCreator.{m}#{v}') for m in ('to_state', 'to_symbol', 'to_stack_symbol') for v in ('object', 'raw')]
+PDA_REP_TEXT = ('Deductive at the representation level for pda.TransitionFunction (dict from (state, symbol, stack symbol) to a set of (target, push)): add_transition inserts exactly the given transition into the view, '
+                '__call__ returns exactly the pairs of the key, copy gives a new object with the same view; and for pda.utils.PDAObjectCreator: to_state / to_symbol / to_stack_symbol return an object equal to the one given '
+                '(the object of the given raw value; Epsilon for the text "epsilon"), keeping the invariant of the three caches - which is what the view-level contracts of the PDA world use them as. ')
 CONV_TEXT = "Deductive for the triple-variable converter (pda.cfg_variable_converter, every method, the constructor included - it establishes the representation invariant the other methods keep): the index used for a state / symbol object is the entry of this converter's own dictionary for its value, whatever index an earlier converter cached on the object (it was not on the pinned tree: fix recorded as X-C19-converter-stale-index); a cell of the table that holds a variable is never changed, so the same triple always gets the same variable; every variable in the table is Variable(n) for an n below the counter and no n occurs twice, so different triples of registered states and symbols get different variables; set_valid only sets the flag of its cell. "
 mixed2('C13', [('contracts.pda', k) for k in ('fn.get_next_free[State]', 'fn.get_next_free[StackSymbol]', 'PDA.to_final_state', 'PDA.to_empty_stack')]
-       + [('contracts.cfg2pda', 'PDA.add_transition'), ('contracts.cfg2pda', 'CFG.to_pda'), ('contracts.cfg_creator', 'CfgCreatorC.get_stack_symbol_from')] + CONV_JOBS, [],
+       + [('contracts.cfg2pda', 'PDA.add_transition'), ('contracts.cfg2pda', 'CFG.to_pda'), ('contracts.cfg_creator', 'CfgCreatorC.get_stack_symbol_from')] + CONV_JOBS + PDA_REP_JOBS, [],
        'Deductive for PDA.to_final_state and PDA.to_empty_stack: the result has exactly the operand transitions plus the bottom-marker wrapper transitions, a start state, an end state and a bottom symbol that are proved fresh (not states / stack symbols of the operand, pairwise different) through the proved contract of get_next_free, for every PDA incl. ones that already use the reserved names; the operand is unchanged. '
-       'Deductive for CFG.to_pda: the result is exactly the one-state PDA of the textbook construction (one epsilon move per production pushing the converted body, one pop move per terminal, nothing else; start stack symbol = converted start symbol), through the proved contract of the public mutator PDA.add_transition, under a conversion of grammar symbols to stack symbols that is proved injective on the source of PDAObjectCreator.get_stack_symbol_from (it was not on the pinned tree: fix cc31095). ' + CONV_TEXT + 'PDA.to_cfg itself (itertools.product over the states) stays bounded.',
+       'Deductive for CFG.to_pda: the result is exactly the one-state PDA of the textbook construction (one epsilon move per production pushing the converted body, one pop move per terminal, nothing else; start stack symbol = converted start symbol), through the proved contract of the public mutator PDA.add_transition, under a conversion of grammar symbols to stack symbols that is proved injective on the source of PDAObjectCreator.get_stack_symbol_from (it was not on the pinned tree: fix cc31095). ' + CONV_TEXT + PDA_REP_TEXT + 'PDA.to_cfg itself (itertools.product over the states) stays bounded.',
        'contract-based deductive verification (pyvc + z3) of the acceptance-mode wrappers, get_next_free, CFG.to_pda, PDA.add_transition and the symbol converter; bounded run-time contract checking (exact PDA membership oracle) for to_cfg and for the language statements',
        ['language statements of the two wrappers and of to_pda from their proved structure: Hopcroft-Motwani-Ullman Thm 6.9 / 6.11 / 6.13, assumed, backed by the bounded comparison',
         'to_pda: terminals of the grammar are required not to be cfg.Epsilon objects; str(value), "#TERM#" + s and s + "\'" are uninterpreted string functions; the PDA constructor and pda.utils.PDAObjectCreator.to_state/to_symbol/to_stack_symbol are modelled at value level (identity on objects of the right class) and not verified; that the while loop of get_stack_symbol_from terminates is not verified',
         'facts about Python strings assumed: the six reserved prefixes are pairwise different and end in "#" (so prefix+digits of one never equals another); State / StackSymbol equality is equality of the value',
-        'view-level contracts of pda.TransitionFunction.copy / add_transition and of the PDA constructor are assumed (their concrete dict-of-set representation is not verified)'])
+        'the view-level contracts of pda.TransitionFunction.copy / add_transition / __call__ and of PDAObjectCreator.to_* used at the call sites are proved on the concrete classes in contracts/pda_tf.py and contracts/pda_creator.py (the match of the two formulations - abstraction function D, identity on values - is by inspection); the PDA constructor is modelled, not verified; the iterator protocol of TransitionFunction, to_dict and get_number_transitions are not covered'])
 
 mixed2('C14', [('contracts.llone', k) for k in ('LLOneParser._get_first_set_production', 'LLOneParser._get_triggers', 'LLOneParser._get_triggers_follow_set')]
        + [('contracts.llone_table', 'LLOneParser.get_llone_parsing_table'), ('contracts.llone_table', 'LLOneParser.is_llone_parsable'),
@@ -317,7 +323,7 @@ mixed2('C16', [('contracts.fst', k) for k in ('FST.add_transition', 'FST.add_sta
 
 mixed2('C11', [('contracts.cfg_inter', k) for k in ('fn._get_all_bodies', 'fn._intersection_when_two_non_terminals', 'fn._intersection_when_terminal', 'fn._intersection_starting_rules')]
        + [('contracts.cfg_inter_main', 'CFG.intersection#fa'), ('contracts.cfg_inter_main', 'CFG.intersection#regex'), ('contracts.cfg_inter_main', 'CFG.intersection#other'), ('contracts.cfg_nf', 'CFGNF.to_normal_form')] + CONV_JOBS
-       + [('contracts.pda_inter', k) for k in ('PDA.intersection#fa', 'PDA.intersection#regex', 'PDA.intersection#other', 'PDA.add_final_state')] + [('contracts.cfg2pda', 'PDA.add_transition')], [],
+       + [('contracts.pda_inter', k) for k in ('PDA.intersection#fa', 'PDA.intersection#regex', 'PDA.intersection#other', 'PDA.add_final_state')] + [('contracts.cfg2pda', 'PDA.add_transition')] + PDA_REP_JOBS, [],
        'Deductive for the structure of CFG.intersection (operand a finite automaton or a Regex; for an operand of any other class NotImplementedError is raised on every path): with N = to_normal_form(self) and '
        'A = to_deterministic(other) the result is the empty grammar CFG() when A has an empty language, and otherwise has start symbol Variable("Start") and exactly the Bar-Hillel productions - '
        '[p,X,r] -> [p,Y,s][s,Z,r] for every production X -> Y Z of N and all states p, s, r of A (_intersection_when_two_non_terminals, _get_all_bodies); [p,X,delta(p,a)] -> a for every '
